@@ -577,6 +577,11 @@ mod jbt {
 }
 use jbt::{key_ok, first_of};
 
+/// ms contains s, and only vertices >= s of the sub-digraph
+spec fn ms_ok(ms: Set<usize>, sub: &Dgj, s: usize) -> bool {
+    ms.contains(s) && forall|x: usize| #[trigger] ms.contains(x) ==> x >= s && sub.verts().contains(x as int)
+}
+
 /// the component chosen by `min_by_key(|scc| scc.iter().min())` among the strongly connected components of the sub-digraph
 /// induced by { u >= s } is the one that contains s
 proof fn lemma_min_scc(sub: &Dgj, s: usize, comps: Seq<BTreeSet<usize>>, keys: Seq<Option<&usize>>, i0: int)
@@ -590,8 +595,7 @@ proof fn lemma_min_scc(sub: &Dgj, s: usize, comps: Seq<BTreeSet<usize>>, keys: S
         0 <= i0 < comps.len(),
         min_key_at(keys, i0),
     ensures
-        comps[i0]@.contains(s),
-        forall|x: usize| comps[i0]@.contains(x) ==> x >= s && sub.verts().contains(x as int),
+        ms_ok(comps[i0]@, sub, s),
 {
     let j = choose|j: int| 0 <= j < comps.len() && (#[trigger] comps[j])@.contains(s);
     assert(key_ok(comps[j]@, keys[j]));
@@ -599,7 +603,7 @@ proof fn lemma_min_scc(sub: &Dgj, s: usize, comps: Seq<BTreeSet<usize>>, keys: S
     assert(opt_le(keys[i0], keys[j]));
     assert(has_member(comps[i0]@));
     let z = choose|z: usize| comps[i0]@.contains(z);
-    assert forall|x: usize| comps[i0]@.contains(x) implies x >= s && sub.verts().contains(x as int) by {
+    assert forall|x: usize| #[trigger] comps[i0]@.contains(x) implies x >= s && sub.verts().contains(x as int) by {
         assert(sub.verts().contains(x as int));
     }
     match keys[j] {
@@ -799,6 +803,119 @@ proof fn lemma_done_all(a: &Dgj, r: Seq<Seq<usize>>, seq: Seq<usize>, c: Seq<usi
     assert(0 <= j < seq.len() && seq[j] == c[0]);
     assert(starts_before(seq, seq.len() as int, c[0]));
     assert(found(Seq::<Seq<usize>>::empty(), r, c));
+}
+
+/// what `circuits` knows about the chosen component (ms = its members, comp = a[ms]) when `circuit` is started
+spec fn comp_ctx(a: &Dgj, comp: &Dgj, ms: Set<usize>, s: usize) -> bool {
+    &&& ms.contains(s)
+    &&& forall|x: usize| #[trigger] ms.contains(x) ==> x >= s
+    &&& induced(a, comp, keep_of(ms))
+    &&& comp.wf()
+    &&& comp.verts().subset_of(a.verts())
+    &&& forall|x: usize| #![trigger comp.verts().contains(x as int)] comp.verts().contains(x as int) <==> ms.contains(x)
+    &&& forall|x: int| #[trigger] comp.verts().contains(x) ==> x >= s && x < a.ord()
+    &&& forall|u: int, v: int| #[trigger] comp.has(u, v) ==> a.has(u, v)
+}
+
+proof fn lemma_comp_ctx(a: &Dgj, sub: &Dgj, comp: &Dgj, ms: Set<usize>, s: usize)
+    requires
+        a.wf(),
+        a.contiguous(),
+        induced(a, sub, |x: int| x >= s),
+        induced(a, comp, keep_of(ms)),
+        ms_ok(ms, sub, s),
+    ensures
+        comp_ctx(a, comp, ms, s),
+{
+    let keep = keep_of(ms);
+    lemma_induced_wf(a, comp, keep);
+    assert forall|x: usize| #![trigger comp.verts().contains(x as int)] comp.verts().contains(x as int) <==> ms.contains(x) by {
+        if ms.contains(x) {
+            assert(sub.verts().contains(x as int));
+            assert(a.verts().contains(x as int));
+            assert(keep(x as int));
+        }
+        if comp.verts().contains(x as int) { assert(keep(x as int)); }
+    }
+    assert forall|x: int| #[trigger] comp.verts().contains(x) implies x >= s && x < a.ord() by {
+        assert(a.verts().contains(x) && keep(x));
+        assert(ms.contains(x as usize));
+    }
+}
+
+/// `*min_scc.iter().min().unwrap()` is s: the iterator is ascending, so its first item is the minimum of ms, and the
+/// minimum of ms is s
+proof fn lemma_start_is_s(ms: Set<usize>, s: usize, start: usize, rem: Seq<&usize>)
+    requires
+        ms.contains(s),
+        forall|x: usize| #[trigger] ms.contains(x) ==> x >= s,
+        vstd::std_specs::btree::increasing_seq(rem),
+        rem.unref().to_set() == ms,
+        rem.len() > 0,
+        *rem[0] == start,
+    ensures
+        start == s,
+{
+    jbt::lemma_btree_min(rem);
+    assert(key_ok(ms, first_of(rem)));
+    assert(first_of(rem) == Some(rem[0]));
+    assert(ms.contains(start));
+    assert(start <= s);
+}
+
+/// every vertex of the component was unblocked and its B-list emptied
+spec fn cleared(comp: &Dgj, blk: Set<usize>, b: Seq<BTreeSet<usize>>) -> bool {
+    forall|x: usize| #![trigger comp.verts().contains(x as int)] comp.verts().contains(x as int) ==> !blk.contains(x) && x < b.len() && b[x as int]@ == Set::<usize>::empty()
+}
+
+/// ... which is the start state of `circuit(start, start, &comp, ..)`
+proof fn lemma_cleared_init(comp: &Dgj, st: JS, blk: Set<usize>, b: Seq<BTreeSet<usize>>, start: usize)
+    requires
+        cleared(comp, blk, b),
+        st == (JS { blk: blk, b: bsets(b), stk: Seq::<usize>::empty() }),
+        comp.verts().contains(start as int),
+    ensures
+        jinv(jhas(comp), jin(comp), b.len() as int, start, st),
+        jblk(jhas(comp), jin(comp), start, st),
+        !blk.contains(start),
+{
+    let hc = jhas(comp);
+    let ic = jin(comp);
+    assert forall|x: usize| #[trigger] ic(x) implies !st.blk.contains(x) by { assert(comp.verts().contains(x as int)); }
+    assert forall|x: usize, y: usize| ic(x) implies !#[trigger] inb(st, x, y) by {
+        assert(comp.verts().contains(x as int));
+        assert(b[x as int]@ == Set::<usize>::empty());
+    }
+    lemma_jinv_init(hc, ic, b.len() as int, start, st);
+    lemma_hinit(hc, ic, start, st);
+}
+
+/// one round of `circuits` (stages 2-4 together), from what the call `circuit(s, s, &comp, ..)` ensures
+proof fn lemma_round(a: &Dgj, sub: &Dgj, comp: &Dgj, comps: Seq<BTreeSet<usize>>, i0: int, r0: Seq<Seq<usize>>, r1: Seq<Seq<usize>>, seq: Seq<usize>, idx: int, s: usize)
+    requires
+        a.wf(),
+        induced(a, sub, |x: int| x >= s),
+        0 <= i0 < comps.len(),
+        comp_ctx(a, comp, comps[i0]@, s),
+        forall|x: usize| #![trigger sub.verts().contains(x as int)] sub.verts().contains(x as int) <==> exists|j: int| 0 <= j < comps.len() && (#[trigger] comps[j])@.contains(x),
+        forall|j: int, k: int, x: usize, y: usize| 0 <= j < comps.len() && 0 <= k < comps.len() && #[trigger] comps[j]@.contains(x) && #[trigger] comps[k]@.contains(y)
+            && reachable(arcs_of(sub), set![x as int], y as int) && reachable(arcs_of(sub), set![y as int], x as int) ==> j == k,
+        all_ok(a, r0, seq, idx),
+        done_ok(a, r0, seq, idx),
+        0 <= idx < seq.len(),
+        forall|i: int, j: int| 0 <= i < j < seq.len() ==> #[trigger] seq[i] < #[trigger] seq[j],
+        seq[idx] == s,
+        seg_ok(jhas(comp), jin(comp), s, seq![s], r0, r1),
+        comp_ok(jhas(comp), jin(comp), s, seq![s], r0, r1),
+    ensures
+        all_ok(a, r1, seq, idx + 1),
+        done_ok(a, r1, seq, idx + 1),
+{
+    lemma_all_ok_step(a, comp, r0, r1, seq, idx, s);
+    assert forall|c: Seq<usize>| #![trigger elem_circuit(a, c)] elem_circuit(a, c) && c[0] == s implies circ_in(jhas(comp), jin(comp), s, c) by {
+        lemma_circ_in_comp(a, sub, comp, comps, i0, s, c);
+    }
+    lemma_done_step(a, comp, r0, r1, seq, idx, s);
 }
 
 impl<'a> Johnson75<'a> {
@@ -1143,7 +1260,7 @@ impl<'a> Johnson75<'a> {
             assert(components@.as_ref().len() > 0);
         }
     @after `let component = self.a.filter_vertices`
-        let ghost keep = keep_of(min_scc@);
+        let ghost ms = min_scc@;
         proof {
             let rem = components@.as_ref();
             let (keys, i0) = choose|keys: Seq<Option<&usize>>, i0: int| {
@@ -1153,14 +1270,27 @@ impl<'a> Johnson75<'a> {
                 &&& #[trigger] min_key_at(keys, i0)
                 &&& min_scc == rem[i0]
             };
+            assert(keys.len() == comps.len() && 0 <= i0 < comps.len() && min_key_at(keys, i0) && min_scc == rem[i0]);
             assert forall|j: int| 0 <= j < comps.len() implies key_ok(comps[j]@, #[trigger] keys[j]) by {
                 assert(key_says(Self::scc_key, rem[j], keys[j]));
             }
             assert(*min_scc == comps[i0]);
             i0g = i0;
+            assert(ms == comps[i0g]@);
             lemma_min_scc(&subgraph, s, comps, keys, i0);
-            assert(induced(a, &component, keep));
-            lemma_induced_wf(a, &component, keep);
+            assert(ms_ok(ms, &subgraph, s));
+            assert(induced(a, &component, keep_of(ms)));
+            lemma_comp_ctx(a, &subgraph, &component, ms, s);
+        }
+    @before `for vertex in component.vertices()`
+        proof {
+            // start == s, from the ascending iterator `min_scc.iter()` (hidden temporary: its item sequence is chosen)
+            let rem = choose|rem: Seq<&usize>| #[trigger] vstd::std_specs::btree::increasing_seq(rem) && rem.unref().to_set() == ms && rem.len() > 0 && *rem[0] == start;
+            assert(vstd::std_specs::btree::increasing_seq(rem) && rem.unref().to_set() == ms && rem.len() > 0 && *rem[0] == start);
+            assert(comp_ctx(a, &component, ms, s));
+            lemma_start_is_s(ms, s, start, rem);
+            assert(start == s);
+            assert(component.verts().contains(start as int));
         }
     @loop 2
     invariant
@@ -1170,45 +1300,53 @@ impl<'a> Johnson75<'a> {
         a == self.a,
         n == self.b@.len(),
         self.ready(),
-        component.verts().subset_of(a.verts()),
+        comp_ctx(a, &component, ms, s),
         forall|i: int| 0 <= i < it2.seq().len() ==> component.verts().contains(#[trigger] it2.seq()[i] as int),
         forall|v: usize| #![trigger component.verts().contains(v as int)] component.verts().contains(v as int) ==> it2.seq().contains(v),
         forall|i: int| 0 <= i < it2.index() ==> !self.blocked@.contains(#[trigger] it2.seq()[i]) && self.b@[it2.seq()[i] as int]@ == Set::<usize>::empty(),
-        it2.index() == it2.seq().len() ==> forall|x: usize| #![trigger component.verts().contains(x as int)] component.verts().contains(x as int) ==> !self.blocked@.contains(x) && self.b@[x as int]@ == Set::<usize>::empty(),
+        it2.index() == it2.seq().len() ==> cleared(&component, self.blocked@, self.b@),
     @loop_start 2
         let ghost k2 = it2.index() as int;
         let ghost vs2 = it2.seq();
         proof {
             assert(vs2[k2] == vertex);
-            assert(a.verts().contains(vertex as int));
+            assert(component.verts().contains(vertex as int));
+            assert(vertex < a.ord());
         }
     @loop_end 2
         proof {
-            assert forall|x: usize| #![trigger component.verts().contains(x as int)] k2 + 1 == vs2.len() && component.verts().contains(x as int) implies !self.blocked@.contains(x) && self.b@[x as int]@ == Set::<usize>::empty() by {
+            assert forall|x: usize| #![trigger component.verts().contains(x as int)] k2 + 1 == vs2.len() && component.verts().contains(x as int)
+                implies !self.blocked@.contains(x) && x < self.b@.len() && self.b@[x as int]@ == Set::<usize>::empty() by {
                 assert(vs2.contains(x));
                 let i = choose|i: int| 0 <= i < vs2.len() && vs2[i] == x;
                 assert(!self.blocked@.contains(vs2[i]));
+                assert((x as int) < a.ord());
             }
         }
     @before `let _ = self.circuit(`
+        let ghost hc = jhas(&component);
+        let ghost ic = jin(&component);
         proof {
-            let hc = jhas(&component);
-            let ic = jin(&component);
-            assert forall|x: usize, y: usize| ic(x) implies !#[trigger] inb(self.abs(), x, y) by {
-                assert(self.b@[x as int]@ == Set::<usize>::empty());
-            }
-            lemma_jinv_init(hc, ic, n as int, start, self.abs());
-            lemma_hinit(hc, ic, start, self.abs());
+            // every precondition of the call, one by one
+            assert(cleared(&component, self.blocked@, self.b@));
+            assert(self.stack@ =~= Seq::<usize>::empty());
+            lemma_cleared_init(&component, self.abs(), self.blocked@, self.b@, start);
+            assert(self.bounded());
+            assert(component.wf());
+            assert(forall|x: int| #[trigger] component.verts().contains(x) ==> x < self.b@.len());
+            assert(jinv(hc, ic, self.b@.len() as int, start, self.abs()));
+            assert(jblk(hc, ic, start, self.abs()));
+            assert(component.verts().contains(start as int));
+            assert(!self.blocked@.contains(start));
+            assert(self.stack@.len() == 0);
         }
     @after `let _ = self.circuit(`
         proof {
-            assert(start == s);
             assert(self.stack@.push(start) =~= seq![s]);
-            lemma_all_ok_step(a, &component, r0, rv(result@), vs, idx, start);
-            assert forall|c: Seq<usize>| #![trigger elem_circuit(a, c)] elem_circuit(a, c) && c[0] == s implies circ_in(jhas(&component), jin(&component), s, c) by {
-                lemma_circ_in_comp(a, &subgraph, &component, comps, i0g, s, c);
-            }
-            lemma_done_step(a, &component, r0, rv(result@), vs, idx, s);
+            assert(seg_ok(hc, ic, s, seq![s], r0, rv(result@)));
+            assert(comp_ok(hc, ic, s, seq![s], r0, rv(result@)));
+            assert(comp_ctx(a, &component, comps[i0g]@, s));
+            lemma_round(a, &subgraph, &component, comps, i0g, r0, rv(result@), vs, idx, s);
         }
     @fn_end
         proof {
